@@ -688,7 +688,13 @@ def bounded(rep, tier):
                         yield from all_fetches(sub if isinstance(sub, list) else [sub])
             fetch_steps = list(all_fetches(plan.steps))
             got = {s.integration for s in fetch_steps}
-            if got != want:
+            # a sub-select of DELETE / UPDATE that reads the integration of the target table stays inside the DML step: no fetch is needed for it
+            dml_dbs = set()
+            for _pth, x_ in __import__('vlib.corpus', fromlist=['x']).walk_nodes(orig):
+                if isinstance(x_, (ast.Delete, ast.Update)) and isinstance(x_.table, ast.Identifier):
+                    f_ = x_.table.parts[0].lower() if len(x_.table.parts) > 1 else None
+                    dml_dbs.add(f_ if f_ in dbs else pl.default_namespace)
+            if got != want and not (got <= want and (want - got) <= dml_dbs):
                 fails.setdefault(f'C10.bounded.integrations.{qname.split(":")[0]}', (sql, f'[{cname}] fetches from {sorted(map(str, got))}, tables resolve to {sorted(map(str, want))}'))
             # (a') no fetch query mentions a table that belongs to another integration
             # (a schema of integration X may be spelled like another database: `X.Y.tbl` is the table Y.tbl of X)
